@@ -87,6 +87,10 @@ size_t type_of_locals_size = 0;
 int current_number_of_locals = 0;
 int max_num_locals = 0;
 
+#ifdef NEOLITH_VERIF
+void (*verif_compiler_trace)(const char *event, long cursor, long size) = 0;
+#endif
+
 static void init_locals();
 static void deinit_locals(void);
 static void clean_up_locals(void);
@@ -145,6 +149,9 @@ void deinit_locals() {
 
 void free_all_local_names () {
   int i;
+#ifdef NEOLITH_VERIF
+  VERIF_CTRACE ("local.free_all", (locals_ptr - locals) + current_number_of_locals, locals_size);
+#endif
   for (i = 0; i < current_number_of_locals; i++)
     {
       locals_ptr[i]->sem_value--;
@@ -156,6 +163,9 @@ void free_all_local_names () {
 
 void deactivate_current_locals () {
   int i;
+#ifdef NEOLITH_VERIF
+  VERIF_CTRACE ("local.deactivate", (locals_ptr - locals) + current_number_of_locals, locals_size);
+#endif
   for (i = 0; i < current_number_of_locals; i++)
     {
       runtime_locals_ptr[i] = (char)locals_ptr[i]->dn.local_num;
@@ -165,6 +175,9 @@ void deactivate_current_locals () {
 
 void reactivate_current_locals () {
   int i;
+#ifdef NEOLITH_VERIF
+  VERIF_CTRACE ("local.reactivate", (locals_ptr - locals) + current_number_of_locals, locals_size);
+#endif
   for (i = 0; i < current_number_of_locals; i++)
     {
       locals_ptr[i]->dn.local_num = runtime_locals_ptr[i];
@@ -175,6 +188,9 @@ void reactivate_current_locals () {
 void clean_up_locals () {
   ptrdiff_t offset;
   offset = (locals_ptr + current_number_of_locals) - locals;
+#ifdef NEOLITH_VERIF
+  VERIF_CTRACE ("local.cleanup", offset, locals_size);
+#endif
   while (offset--)
     {
       locals[offset]->sem_value--;
@@ -188,8 +204,14 @@ void clean_up_locals () {
 }
 
 void pop_n_locals (int num) {
+#ifdef NEOLITH_VERIF
+  VERIF_CTRACE ("local.pop_n", num, current_number_of_locals);
+#endif
   while (num--)
     {
+#ifdef NEOLITH_VERIF
+      VERIF_CTRACE ("local.pop", (locals_ptr - locals) + current_number_of_locals - 1, locals_size);
+#endif
       locals_ptr[--current_number_of_locals]->sem_value--;
       locals_ptr[current_number_of_locals]->dn.local_num = -1;
     }
@@ -199,6 +221,9 @@ int add_local_name (char *str, int type) {
 
   if ((size_t)max_num_locals >= num_local_variables_allowed)
     {
+#ifdef NEOLITH_VERIF
+      VERIF_CTRACE ("local.full", max_num_locals, num_local_variables_allowed);
+#endif
       yyerror ("Too many local variables");
       return 0;
     }
@@ -207,10 +232,20 @@ int add_local_name (char *str, int type) {
       ident_hash_elem_t *ihe;
 
       ihe = find_or_add_ident (str, FOA_NEEDS_MALLOC);
+#ifdef NEOLITH_VERIF
+      VERIF_CTRACE ("local.type", (type_of_locals_ptr - type_of_locals) + max_num_locals + 1, type_of_locals_size);
+      VERIF_CTRACE ("local.name", (locals_ptr - locals) + current_number_of_locals + 1, locals_size);
+#endif
       type_of_locals_ptr[max_num_locals] = (lpc_type_t)type;
       locals_ptr[current_number_of_locals++] = ihe;
+#ifdef NEOLITH_VERIF
+      VERIF_CTRACE ("local.ident0", ihe->dn.local_num, ihe->sem_value);
+#endif
       if (ihe->dn.local_num == -1)
         ihe->sem_value++;
+#ifdef NEOLITH_VERIF
+      VERIF_CTRACE ("local.ident", max_num_locals, ihe->sem_value);
+#endif
       return (ihe->dn.local_num = (short)max_num_locals++);
     }
 }
@@ -239,6 +274,10 @@ void reallocate_locals () {
     TAG_LOCALS, "reallocate_locals:3"
   );
   runtime_locals_ptr = runtime_locals + offset;
+#ifdef NEOLITH_VERIF
+  VERIF_CTRACE ("locals.realloc.type", type_of_locals_ptr - type_of_locals, type_of_locals_size);
+  VERIF_CTRACE ("locals.realloc.name", locals_ptr - locals, locals_size);
+#endif
 }
 
 /*
@@ -1046,6 +1085,9 @@ function_number_t define_new_function (char *name, int num_arg, int num_local, u
   if (exact_types && num_arg)
     {
       *((unsigned short *) mem_block[A_ARGUMENT_INDEX].block + num) = (unsigned short)(mem_block[A_ARGUMENT_TYPES].current_size / sizeof (unsigned short));
+#ifdef NEOLITH_VERIF
+      VERIF_CTRACE ("local.argtypes", (type_of_locals_ptr - type_of_locals) + num_arg, type_of_locals_size);
+#endif
       add_to_mem_block (A_ARGUMENT_TYPES, (char *) type_of_locals_ptr, num_arg * sizeof (*type_of_locals_ptr));
     }
   return (function_number_t)num;
